@@ -89,12 +89,13 @@ var containsWhitespaceOrControlPattern = regexp.MustCompile(`[[:space:]]|[[:cntr
 
 // numericCharRefsTerminatedPattern matches strings in which every numeric HTML character
 // reference is written out in full: "&#" followed by one to seven decimal digits, or by "x" and
-// one to six hexadecimal digits, and a semicolon.
+// one to six hexadecimal digits, and a semicolon. "&#" followed by a character that cannot start
+// a number is not a character reference.
 //
 // HTML parsers also decode numeric character references that lack the semicolon, which
 // html.UnescapeString does not always do ("&#9j" is a TAB followed by "j" for a browser).
 var numericCharRefsTerminatedPattern = regexp.MustCompile(
-	`^(?:[^&]|&+[^#&]|&*&#(?:[0-9]{1,7}|[xX][0-9a-fA-F]{1,6});)*&*$`)
+	`^(?:[^&]|&+[^#&]|&*&#[^0-9xX&]|&*&#(?:[0-9]{1,7}|[xX][0-9a-fA-F]{1,6});)*&*$`)
 
 // decodeURLPrefix returns the given prefix after it has been HTML-unescaped.
 // It returns an error if the prefix:
